@@ -149,6 +149,12 @@ class Flow:
         frf = self.env.get(node.func.id) if isinstance(node.func, ast.Name) else None
         if isinstance(node.func, ast.Subscript):
             frf = self.expr(node.func)          # a callable picked out of a sequence: item[3](value)
+        if frf is None and recv_rf is not None and name is not None:
+            # a callable taken from a record field that is an item of a row: _Row._make(row).fset(value) calls row[3]
+            cand = self.tab.atom('getattr', (recv_rf, name))
+            ca_ = cand.single_atom()
+            if ca_ is not None and self.tab.atoms[ca_].head == 'idx':
+                frf = cand
         if name == 'searchsorted' and recv_rf is not None:
             # the method spelling is the function spelling with the array first (as in Conv.call)
             args = [recv_rf] + list(args)
@@ -207,6 +213,17 @@ class Flow:
                 for c in ix.subclasses(g.cls, strict=True):
                     if name in c.methods:
                         return None, False          # overridden somewhere: not a unique callee
+        elif d is not None and d.count('.') == 1 and d.split('.')[0] not in self.env:
+            # ClassName.helper(...) where helper is a static method of a class of the analysed tree
+            r = ix.resolve_name(f.module, d.split('.')[0])
+            if hasattr(r, 'methods'):
+                g = ix.lookup_method(r, name)
+                if g is not None and 'staticmethod' not in g.decorators():
+                    g = None
+                if g is not None:
+                    for c in ix.subclasses(g.cls, strict=True):
+                        if name in c.methods:
+                            return None, False
         if g is None or g.site in known or g.node is f.node:
             return None, False
         decs = [x for x in g.decorators() if x not in ('staticmethod', 'classmethod')]
@@ -404,6 +421,9 @@ class Flow:
             if isinstance(s, (ast.Return, ast.Raise, ast.Break, ast.Continue)):
                 for _ in range(pushed):
                     self.guards.pop()
+                if top and isinstance(s, ast.Return):
+                    # the function's final `return`: the validations made on the way hold for whoever called it
+                    self._top_valid = list(getattr(self, '_valid', []))[-pushed_v:] if pushed_v else []
                 self._popv(pushed_v)
                 return True
         for _ in range(pushed):
@@ -558,12 +578,33 @@ class Flow:
             if va is not None and t.atoms[va].head == 'tuple' and \
                     len(t.atoms[va].args) == len(target.elts):
                 elts = t.atoms[va].args
+            star = [i for i, e in enumerate(target.elts) if isinstance(e, ast.Starred)]
+            if star:
+                # a, *rest, z = X : a = X[0], rest = the items X[1:-1], z = X[-1] (names after the star count from the end)
+                from .algebra import Slice
+                si = star[0]
+                after = len(target.elts) - si - 1
+                known = None
+                if va is not None and t.atoms[va].head == 'tuple' and len(t.atoms[va].args) >= len(target.elts) - 1 and \
+                        all(isinstance(x, RF) for x in t.atoms[va].args):
+                    known = t.atoms[va].args
+                for i, e in enumerate(target.elts):
+                    if i < si:
+                        self.bind(e, known[i] if known else t.atom('idx', (value_rf, t.const(i))), node)
+                    elif i == si:
+                        if known:
+                            v_ = t.atom('tuple', tuple(known[si:len(known) - after]))
+                        else:
+                            v_ = t.atom('idx', (value_rf, Slice(t.const(si) if si else None,
+                                                               t.const(-after) if after else None, None)))
+                        self.bind(e.value, v_, node)
+                    else:
+                        k_ = i - len(target.elts)
+                        self.bind(e, known[k_] if known else t.atom('idx', (value_rf, t.const(k_))), node)
+                return
             for i, e in enumerate(target.elts):
-                if isinstance(e, ast.Starred):
-                    self.bind(e.value, t.atom('item*', (value_rf, t.const(i))), node)
-                else:
-                    self.bind(e, elts[i] if elts else
-                              t.atom('idx', (value_rf, t.const(i))), node)
+                self.bind(e, elts[i] if elts else
+                          t.atom('idx', (value_rf, t.const(i))), node)
         elif isinstance(target, ast.Subscript) and isinstance(
                 target.value, ast.Name) and self._whole(target):
             # X[...] = v  /  X[:] = v : the buffer is refilled; from here on the
